@@ -1,5 +1,7 @@
 package simrt
 
+import "iter"
+
 // Channel operations of repository code are rewritten to these polling
 // forms, so that a simulated client that has to wait hands the processor to
 // another client instead of blocking the only running goroutine. If nobody
@@ -42,5 +44,21 @@ func Send[T any](ch chan<- T, v T) {
 		default:
 		}
 		Block()
+	}
+}
+
+// RecvSeq replaces `range ch`: it receives by polling until the channel is
+// closed.
+func RecvSeq[T any](ch <-chan T) iter.Seq[T] {
+	return func(yield func(T) bool) {
+		for {
+			v, ok := Recv2(ch)
+			if !ok {
+				return
+			}
+			if !yield(v) {
+				return
+			}
+		}
 	}
 }
